@@ -6,10 +6,10 @@ SPEC = {'level': 'exploration',
                  '"otherwise returns nothing" is read as: nothing is returned only if neither return condition holds; checked only under conditions that are stable from before the wait started',
                  'all pool transactions are independent, final and above the block minimum fee, so a template holds the whole pool (cross-checked with a fresh template before use)',
                  'regtest (test chain: the 20-minute rule is active); a 60 s real-time watchdog only marks a round inconclusive'],
- 'stages': [gen('vh_c65', 'c65_waitnext', 640, 12000, min_cases_quick=200, replays_needed=2, replays_total=5,
+ 'stages': [gen('vh_c65', 'c65_waitnext', 400, 12000, min_cases_quick=120, replays_needed=2, replays_total=5,
                 floors={'ret:new-tip': 0.2, 'ret:null-interrupt': 0.05, 'ret:same-tip-fees': 0.05, 'ret:same-tip-20min': 0.05, 'event-inside-wait-window': 0.15, 'tip-differed-at-start': 0.1},
                 rule='waiter thread vs driver events under a mock clock; non-trivial = an event provably inside a wait window and >=2 conclusive rounds'),
-            gen('vh_c65', 'c65_waitnext_tsan', 48, 2400, cfg='tsan', workers_quick=4, workers_thorough=8, min_cases_quick=12, replays_needed=2, replays_total=5,
+            gen('vh_c65', 'c65_waitnext_tsan', 24, 2400, cfg='tsan', workers_quick=4, workers_thorough=8, min_cases_quick=8, replays_needed=2, replays_total=5,
                 rule='same target in the ThreadSanitizer build (any TSan / lock-order report is a failure)')]}
 
 # VERIF_NO_TSAN=1 drops the ThreadSanitizer stages (used for sensitivity runs of mutants that only the differential/log oracle can see:
